@@ -8,9 +8,23 @@
    index outside the bucket array, or a bucket with more items than the item[]/seq[] arrays hold, gives the result [OOB].
    An item is (cb, p1, p2, p3, prio); the flags field is only read by tdma_sched_flag_scan, which is outside C08.
    Callback identities: cb 0 = NULL (SCHED_END_FRAME marker), cb 1 = &tdma_end_set (SCHED_END_SET marker), cb >= 2 = other functions.
-   Callbacks are PURE: they do not touch the scheduler (a callback that schedules further items while tdma_sched_execute runs is
-   outside the quantifier of C08); their int return value is the explicit argument [rcf : item -> Z] (the concrete callbacks of the
+   Callbacks.  The int result of a plain callback is the explicit argument [rcf : item -> Z] (the concrete callbacks of the
    correspondence harness look at cb, p1 only).  Calling through cb = NULL is the result [NullCall].
+   [tdma_sched_execute] (first part of this file) is the view in which NO callback touches the scheduler; the 13 history theorems
+   of C08 are stated with it.  [tdma_sched_execute_sp] (second part) is the re-entrant function that exists: callbacks may call
+   tdma_schedule() / tdma_sched_reset() WHILE tdma_sched_execute() runs (prim_fbsb.c l1s_sbdet_resp -> tdma_sched_reset();
+   l1s_dsp_abort() = tdma_schedule(0, l1s_abort_cmd, ...)).  It threads the scheduler state through the run loop exactly like the
+   C code: the bucket is sorted ONCE (seq[] = identity for all TDMASCHED_NUM_CB entries, the first num_items-at-entry sorted), the
+   loop condition re-reads bucket->num_items on every iteration, so an item a callback appends to the bucket that is being run
+   (frame offset 0, or 25) is executed in the same call, after the sorted ones, in append order (seq[k] = k) whatever its
+   priority, and is counted in the return value; an item scheduled N frames ahead lands in bucket cur+N; a full bucket answers
+   -1 to the callback; a negative callback result returns at once and leaves the bucket as it is, items appended so far included.
+   Two callback identities use the scheduler: cb 15 = CB_SPAWN calls tdma_schedule(p2, child...) and cb 16 = CB_RSPAWN calls
+   tdma_sched_reset() first (the prim_fbsb pattern); both ignore the result of tdma_schedule and return 0; the child
+   ([child_of]) is a plain logger (cb 2..9), so the loop runs at most NITEMS callbacks: the explicit fuel NITEMS + 1 is enough and
+   the result [SXFuel] is excluded by theorem c08_sp_no_crash.  By theorem c08_sp_conservative both functions agree on every bucket
+   without cb 15 / 16.  NOT modelled: a callback that calls tdma_sched_advance() or tdma_sched_execute() itself, or that spawns
+   spawning children (the firmware does neither).
 
    Integer widths.  frame_offset, p1, p2 uint8; p3 uint16; prio int16; cur_bucket uint8; wrap_bucket computes in int
    (cur_bucket + offset <= 510, no wrap), stores into uint16, returns uint8: both conversions are written out.  The operands of the
@@ -272,6 +286,206 @@ Definition w_c08_run (a : list Z) : list Z :=
         | (bs, FOk st) => flat_map enc_obs bs ++ enc_state st
         | (bs, FOOB) => flat_map enc_obs bs ++ [-997]
         | (bs, FNull) => flat_map enc_obs bs ++ [-998]
+        end
+      | None => [-999]
+      end
+    else [-999]
+  | [] => [-999]
+  end.
+
+(* ================= second part: callbacks that use the scheduler while tdma_sched_execute() runs ================= *)
+Definition CB_SPAWN : Z := 15.       (* harness callback: tdma_schedule(p2, child, ...); return 0 *)
+Definition CB_RSPAWN : Z := 16.      (* harness callback: tdma_sched_reset(); tdma_schedule(p2, child, ...); return 0 *)
+Definition is_spawn (cb : Z) : bool := (cb =? CB_SPAWN) || (cb =? CB_RSPAWN).
+
+(* what a spawning callback invoked with (p1, p2, p3) schedules: tdma_schedule(p2, cbtab[2 + p1 % 8], p1, p2, p3, (int16_t)(p1 - 128)) *)
+Definition child_of (it : item) : item :=
+  {| i_cb := 2 + (i_p1 it) mod 8; i_p1 := i_p1 it; i_p2 := i_p2 it; i_p3 := i_p3 it; i_prio := s16 (i_p1 it - 128) |}.
+
+(* what happens during one tdma_sched_execute: a callback is invoked / a callback called tdma_schedule(off, child) and got rc /
+   a callback called tdma_sched_reset() and n items were stored afterwards *)
+Inductive xev := ECall (it : item) | ESpawn (off : Z) (child : item) (rc : Z) | EReset (n : Z).
+
+(* one callback invocation: new scheduler state, the callback's int result, what it did *)
+Definition cb_effect (rcf : item -> Z) (st : sched) (it : item) : res (sched * Z * list xev) :=
+  if i_cb it =? CB_SPAWN then
+    match tdma_schedule st (i_p2 it) (child_of it) with
+    | Ok (st', rc) => Ok (st', 0, [ECall it; ESpawn (i_p2 it) (child_of it) rc])
+    | OOB => OOB
+    | NullCall => NullCall
+    end
+  else if i_cb it =? CB_RSPAWN then
+    let st0 := tdma_sched_reset st in
+    match tdma_schedule st0 (i_p2 it) (child_of it) with
+    | Ok (st', rc) => Ok (st', 0, [ECall it; EReset (stored st0); ESpawn (i_p2 it) (child_of it) rc])
+    | OOB => OOB
+    | NullCall => NullCall
+    end
+  else Ok (st, rcf it, [ECall it]).
+
+Inductive sxres := SXOk (st : sched) (log : list xev) (ret : Z) | SXOOB | SXNull (log : list xev) | SXFuel.
+
+Definition sx_prepend (evs : list xev) (r : sxres) : sxres :=
+  match r with
+  | SXOk st lg ret => SXOk st (evs ++ lg) ret
+  | SXNull lg => SXNull (evs ++ lg)
+  | SXOOB => SXOOB
+  | SXFuel => SXFuel
+  end.
+
+(* for (i = 0; i < bucket->num_items; i++) { item = &bucket->item[seq[i]]; num_events++; rc = item->cb(...); if (rc < 0) return rc; }
+   bucket->num_items = 0; return num_events;
+   [c] is the bucket index fixed at entry (bucket = &sched->bucket[sched->cur_bucket]), [sq] the seq[] array computed at entry,
+   [i] the loop counter (= num_events); the bucket content is RE-READ from the state in every iteration *)
+Fixpoint exec_loop (rcf : item -> Z) (fuel : nat) (sq : list nat) (c : Z) (st : sched) (i : nat) : sxres :=
+  match fuel with
+  | O => SXFuel
+  | S f =>
+    match nth_error (s_bk st) (Z.to_nat c) with
+    | None => SXOOB
+    | Some b =>
+      if (i <? length b)%nat then
+        match nth_error sq i with
+        | None => SXOOB                                   (* seq[i] outside seq[TDMASCHED_NUM_CB] *)
+        | Some k =>
+          match nth_error b k with
+          | None => SXOOB                                 (* item[seq[i]] outside the stored items *)
+          | Some it =>
+            if i_cb it =? CB_NULL then SXNull []
+            else match cb_effect rcf st it with
+                 | Ok (st', rc, evs) =>
+                   if rc <? 0 then SXOk st' evs rc
+                   else sx_prepend evs (exec_loop rcf f sq c st' (S i))
+                 | OOB => SXOOB
+                 | NullCall => SXNull []
+                 end
+          end
+        end
+      else SXOk (set_bucket st c []) [] (Z.of_nat i)
+    end
+  end.
+
+(* int tdma_sched_execute(void), re-entrant.  Every iteration that calls a callback increments i and i < num_items <= NITEMS
+   (tdma_schedule refuses to grow a bucket beyond NITEMS), so NITEMS + 1 iterations reach the exit. *)
+Definition tdma_sched_execute_sp (rcf : item -> Z) (st : sched) : sxres :=
+  match nth_error (s_bk st) (Z.to_nat (s_cur st)) with
+  | None => SXOOB
+  | Some b =>
+    if (c_NITEMS <? Z.of_nat (length b)) || (c_TDMASCHED_NUM_CB <? Z.of_nat (length b)) then SXOOB
+    else exec_loop rcf (S (Z.to_nat c_NITEMS)) (bucket_sort b) (s_cur st) st 0
+  end.
+
+(* ---- histories with the re-entrant execute ---- *)
+Inductive obs_sp :=
+| PRet (r : Z)
+| PCur (c : Z)
+| PExec (log : list xev) (ret : Z)
+| PReset (n : Z).
+
+Definition step_sp (rcf : item -> Z) (st : sched) (o : op) : res (sched * obs_sp) :=
+  match o with
+  | OSched off it =>
+    match tdma_schedule st off it with Ok (st', r) => Ok (st', PRet r) | OOB => OOB | NullCall => NullCall end
+  | OSet off set p3 =>
+    match tdma_schedule_set st off set p3 with Ok (st', r) => Ok (st', PRet r) | OOB => OOB | NullCall => NullCall end
+  | OAdvance => let st' := tdma_sched_advance st in Ok (st', PCur (s_cur st'))
+  | OExecute =>
+    match tdma_sched_execute_sp rcf st with
+    | SXOk st' lg r => Ok (st', PExec lg r)
+    | SXOOB => OOB
+    | SXNull _ => NullCall
+    | SXFuel => OOB          (* never: c08_sp_no_crash; the wire function would show it as -997 *)
+    end
+  | OReset => let st' := tdma_sched_reset st in Ok (st', PReset (stored st'))
+  end.
+
+Fixpoint run_sp (rcf : item -> Z) (st : sched) (ops : list op) : list obs_sp * fin :=
+  match ops with
+  | [] => ([], FOk st)
+  | o :: r =>
+    match step_sp rcf st o with
+    | Ok (st', b) => let '(bs, f) := run_sp rcf st' r in (b :: bs, f)
+    | OOB => ([], FOOB)
+    | NullCall => ([], FNull)
+    end
+  end.
+
+(* ---- wire function with the two spawning callbacks: same input encoding, callback ids 0..16;
+   execute -> ret nlog (4 ints){nlog}: a callback invocation is (cb p1 p2 p3), a tdma_schedule done by a callback is
+   (-2 off child_cb rc), a tdma_sched_reset done by a callback is (-3 stored 0 0) ---- *)
+Definition NCBK_SP : Z := 17.
+Definition cb_valid_sp (cb : Z) : bool := (0 <=? cb) && (cb <? NCBK_SP).
+
+Fixpoint take_items_sp (n : nat) (a : list Z) : option (list item * list Z) :=
+  match n with
+  | O => Some ([], a)
+  | S k =>
+    match a with
+    | cb :: p1 :: p2 :: p3 :: pr :: r =>
+      if cb_valid_sp cb then
+        match take_items_sp k r with Some (its, r') => Some (mk_item cb p1 p2 p3 pr :: its, r') | None => None end
+      else None
+    | _ => None
+    end
+  end.
+
+Fixpoint parse_ops_sp (fuel : nat) (a : list Z) : option (list op) :=
+  match a with
+  | [] => Some []
+  | c :: r =>
+    match fuel with
+    | O => None
+    | S f =>
+      if c =? 1 then
+        match r with
+        | off :: cb :: p1 :: p2 :: p3 :: pr :: r' =>
+          if cb_valid_sp cb then option_map (cons (OSched (u8 off) (mk_item cb p1 p2 p3 pr))) (parse_ops_sp f r') else None
+        | _ => None
+        end
+      else if c =? 2 then
+        match r with
+        | off :: p3 :: n :: r' =>
+          if (0 <=? n) && (n <=? 64) then
+            match take_items_sp (Z.to_nat n) r' with
+            | Some (its, r'') => option_map (cons (OSet (u8 off) its (u16 p3))) (parse_ops_sp f r'')
+            | None => None
+            end
+          else None
+        | _ => None
+        end
+      else if c =? 3 then option_map (cons OAdvance) (parse_ops_sp f r)
+      else if c =? 4 then option_map (cons OExecute) (parse_ops_sp f r)
+      else if c =? 5 then option_map (cons OReset) (parse_ops_sp f r)
+      else None
+    end
+  end.
+
+Definition visible_ev (e : xev) : bool := match e with ECall it => negb (i_cb it =? CB_END_SET) | _ => true end.
+Definition enc_ev (e : xev) : list Z :=
+  match e with
+  | ECall it => enc_call it
+  | ESpawn off ch rc => [-2; off; i_cb ch; rc]
+  | EReset n => [-3; n; 0; 0]
+  end.
+
+Definition enc_obs_sp (b : obs_sp) : list Z :=
+  match b with
+  | PRet r => [r]
+  | PCur c => [c]
+  | PExec lg r => r :: Z.of_nat (length (filter visible_ev lg)) :: flat_map enc_ev (filter visible_ev lg)
+  | PReset n => [n]
+  end.
+
+Definition w_c08_runsp (a : list Z) : list Z :=
+  match a with
+  | cur :: r =>
+    if (0 <=? cur) && (cur <? c_NBUCKETS) then
+      match parse_ops_sp (length r) r with
+      | Some ops =>
+        match run_sp harness_rcf (init cur) ops with
+        | (bs, FOk st) => flat_map enc_obs_sp bs ++ enc_state st
+        | (bs, FOOB) => flat_map enc_obs_sp bs ++ [-997]
+        | (bs, FNull) => flat_map enc_obs_sp bs ++ [-998]
         end
       | None => [-999]
       end
